@@ -767,6 +767,18 @@ def c17(tier, seed):
         runs = [{}, {"files": files, "expect": "same_as_clean"}]
         out.append(scenario("c17-%d-%s-%d" % (i, pn, nfiles), props[pn](), fl, runs=runs, name=name,
                             tag={"prop": pn, "kinds": [f["path"].split("-")[-1].replace(".fail", "") for f in files]}))
+    # truncations of a real recording of the same property (every few words): each is well-formed and of the current version,
+    # and replays to "no longer valid" (or passes); none may change the run
+    for i in range(6 if tier == "quick" else 60):
+        pn = ["sm", "custom", "passing"][i % 3]
+        body = props[pn]()["body"]
+        name = "TestTrunc"
+        sd = rng.randrange(1, 1 << 64)
+        runs = [{"prop": {"body": body + [op("fatalf", site=1)]}, "flags": {"nofailfile": "false", "shrinktime": "0s", "checks": "3"}},
+                {"cleanDir": True},
+                {"truncPrev": sorted(set(list(range(0, 12)) + [rng.randrange(0, 80) for _ in range(25)])), "expect": "same_as_clean", "expectRun": 2}]
+        out.append(scenario("c17-trunc-%s-%d" % (pn, i), {"body": body}, {"checks": 10, "seed": sd, "nofailfile": "true", "shrinktime": "0s", "steps": 8},
+                            runs=runs, name=name, tag={"prop": pn, "kinds": ["truncations of a real recording"]}))
     return out
 
 
